@@ -177,7 +177,7 @@ func (fr *Frame) loopEffects(pre *State, li *loopInfo) *loopEffects {
 		val, ok, fresh := rootVal(v, 0)
 		if !ok {
 			if ot := objType(v, 0); ot != nil {
-				eff.targets = append(eff.targets, modTarget{kind: "type", tid: vc.p.typeID(ot)})
+				eff.targets = append(eff.targets, modTarget{kind: "type", tid: vc.p.objID(ot)})
 				markKinds(t, true)
 				return
 			}
